@@ -38,7 +38,7 @@
    of linearizability ([c02_holds]). *)
 
 From Coq Require Import List String Bool.
-From Gogu Require Import Base Lock Lin Atomic CsShape C02_Model.
+From Gogu Require Import Base Lock Lin Atomic CsShape C02_Model C02_Proofs.
 From Gogu Require C05_Model C06_Model.
 From GoguGen Require Import Skeletons.
 Import ListNotations.
@@ -213,6 +213,23 @@ Theorem C02_containers_linearizable :
   Linearizable bt_step bt_init /\ Linearizable tr_step tr_init /\ Linearizable ca_step ca_init.
 Proof. repeat split; intros; apply linearizable_any. Qed.
 Print Assumptions C02_containers_linearizable.
+
+(* ====================================================================== *)
+(* (D) the executable judge of the correspondence check                     *)
+(* ====================================================================== *)
+
+(* [C02_Model.search], which [c02_holds] runs on every explored execution of the real
+   containers, accepts an execution exactly when it has a linearization: an ordering of all
+   its calls in which no call comes after one it preceded in real time, and in which the
+   sequential machine, run one call at a time, returns what every call returned and what
+   the tail calls made afterwards returned.  So the judge raises no false alarm
+   (completeness, <-) and accepts nothing that is not linearizable (soundness, ->). *)
+Theorem C02_judge_decides_linearizability :
+  forall (St : Type) (step : St -> opr -> St * resr) fuel s calls tail tail_obs,
+    (List.length calls < fuel)%nat ->
+    (search step fuel s calls tail tail_obs = true <-> linearization step s calls tail tail_obs).
+Proof. exact (fun St => @search_spec St). Qed.
+Print Assumptions C02_judge_decides_linearizability.
 
 (* ---- non-vacuity: a slice stack whose Pop is two micro-steps (read the top under the lock,
         then truncate), its critical sections computing the machine's step; and a concrete
